@@ -481,64 +481,78 @@ func (f *Flow) nilness(v ssa.Value, seen map[ssa.Value]bool) int {
 
 // truth evaluates a branch condition: (value, known).
 func (f *Flow) truth(v ssa.Value, seen map[ssa.Value]bool) (bool, bool) {
+	t, k, _ := f.truth3(v, seen)
+	return t, k
+}
+
+// truth3 is truth with a third answer, cyc: v is a phi already being evaluated (a loop-carried variable reaching
+// itself). Such an edge contributes no value of its own - the variable's values come from its other inputs - so the
+// enclosing phi skips it (the optimistic treatment of phi cycles in constant propagation).
+func (f *Flow) truth3(v ssa.Value, seen map[ssa.Value]bool) (val bool, known bool, cyc bool) {
 	if _, isPhi := v.(*ssa.Phi); isPhi {
 		// only phis can form cycles; a constant (one shared object) may legitimately arrive on several edges
 		if seen[v] {
-			return false, false
+			return false, false, true
 		}
 		seen[v] = true
 	}
 	if f.assume != nil {
 		if t, k := f.assume(v); k {
-			return t, true
+			return t, true, false
 		}
 	}
 	switch x := v.(type) {
 	case *ssa.Const:
 		if x.Value != nil && x.Value.Kind() == constant.Bool {
-			return constant.BoolVal(x.Value), true
+			return constant.BoolVal(x.Value), true, false
 		}
 	case *ssa.UnOp:
 		if x.Op == token.NOT {
-			t, k := f.truth(x.X, seen)
-			return !t, k
+			t, k, cy := f.truth3(x.X, seen)
+			return !t, k, cy
 		}
 	case *ssa.Phi:
 		if x.Type().String() != "bool" {
-			return false, false
+			return false, false, false
 		}
 		res, n := false, 0
 		for i, e := range x.Edges {
 			if !f.liveInto(x.Block(), i) {
 				if x.Block() == f.start && f.startPred == nil {
-					return false, false
+					return false, false, false
 				}
 				continue
 			}
-			t, k := f.truth(e, seen)
+			t, k, cy := f.truth3(e, seen)
+			if cy {
+				continue
+			}
 			if !k || (n > 0 && t != res) {
-				return false, false
+				return false, false, false
 			}
 			res = t
 			n++
 		}
-		return res, n > 0
+		if n == 0 {
+			return false, false, true
+		}
+		return res, true, false
 	case *ssa.BinOp:
 		if x.Op == token.EQL || x.Op == token.NEQ {
 			for _, pair := range [][2]ssa.Value{{x.X, x.Y}, {x.Y, x.X}} {
 				if IsNilConst(pair[1]) {
 					switch f.Nilness(pair[0]) {
 					case 1:
-						return x.Op == token.NEQ, true
+						return x.Op == token.NEQ, true, false
 					case -1:
-						return x.Op == token.EQL, true
+						return x.Op == token.EQL, true, false
 					}
-					return false, false
+					return false, false, false
 				}
 			}
 		}
 	}
-	return false, false
+	return false, false, false
 }
 
 // Reaches reports whether instruction in lies in a reached block.
@@ -775,4 +789,49 @@ func (f *Flow) NilCanReach(rv ssa.Value, ret *ssa.Return, origin ssa.Instruction
 		return false
 	}
 	return walk(rv, 0)
+}
+
+// PossibleValues lists the values rv can hold at ret within this flow: through live phi edges and, for a result kept
+// in a local cell, the stores of the flow that lie between origin and the return (flow-insensitive among those).
+func (f *Flow) PossibleValues(rv ssa.Value, ret *ssa.Return, origin ssa.Instruction) []ssa.Value {
+	var out []ssa.Value
+	seen := map[ssa.Value]bool{}
+	var walk func(v ssa.Value, depth int)
+	walk = func(v ssa.Value, depth int) {
+		if v == nil || seen[v] || depth > 8 {
+			return
+		}
+		seen[v] = true
+		switch x := v.(type) {
+		case *ssa.Phi:
+			if f.Reached[x.Block()] {
+				for i, e := range x.Edges {
+					if f.liveInto(x.Block(), i) {
+						walk(e, depth+1)
+					}
+				}
+				return
+			}
+		case *ssa.UnOp:
+			if al, ok := x.X.(*ssa.Alloc); ok && x.Op == token.MUL && al.Referrers() != nil {
+				for _, r := range *al.Referrers() {
+					st, isSt := r.(*ssa.Store)
+					if !isSt || st.Addr != ssa.Value(al) || !f.Reached[st.Block()] {
+						continue
+					}
+					if origin != nil && !CanReach(origin, st) {
+						continue
+					}
+					if !CanReach(st, ret) {
+						continue
+					}
+					walk(st.Val, depth+1)
+				}
+				return
+			}
+		}
+		out = append(out, v)
+	}
+	walk(rv, 0)
+	return out
 }
